@@ -67,7 +67,10 @@ def strategy(tier):
              "hint": draw(st.booleans()), "sorter": draw(st.sampled_from(SORTERS)),
              "target": [draw(st.sampled_from([0.0, 1.0, -0.5, 2.5])), draw(st.sampled_from([0.0, 0.25, -1.0]))],
              "scale": draw(st.sampled_from([1.0, 0.01, 100.0])), "payload_seed": draw(SEED),
-             "forder": draw(st.booleans())}
+             "forder": draw(st.booleans()),
+             # sparse-only options given for a dense problem (the examples construct EigenSolve(..., nmodes=3) before
+             # they know the storage): documented as ignored, the complete spectrum is still returned
+             "dense_nmodes": draw(st.sampled_from([None, None, 1, 2, 3, 6]))}
         return c
 
     @st.composite
@@ -458,6 +461,9 @@ def _check_dense(case):
     fn = _sorter(case["sorter"], target)
     if fn is not None:
         kwargs["sorting_func"] = fn
+    if case.get("dense_nmodes") is not None:
+        kwargs["nmodes"] = case["dense_nmodes"]
+        labels.append("nmodes_given_for_dense")
     V = []
     tag = "dense:" + ("hermitian" if herm_pencil else "general")
 
